@@ -22,7 +22,7 @@ def observe(res):
 def run(res, tier, seed, replay):
     fam = json.load(open(vlib.VERIF + "/tools/sigfam.json"))
     res.cov["rule"] = (f"real: a generated family of {len(fam)} function-pointer types (single-feature variations of fn(u64, &u8) -> u64 in arity, one parameter type, return type, reference mutability, raw-pointer mutability, unsafety, ABI, plus a lifetime-only variant and "
-                       "bool-returning traps), one target and one fake item of each; ALL ordered pairs through func! (explicit-type form and the simplified arms), closure!, fake!, the unchecked macros on either or both sides, null pointers, and the async macros over 4 output types; "
+                       "bool-returning traps), one target and one fake item of each; ALL ordered pairs through func! (explicit-type form and the simplified arms), closure!, fake!, the unchecked macros on either or both sides, a replacement pointer that holds the target's OWN address under the other type, null pointers, and the async macros over 4 output types; "
                        "the whole table twice: attempted on an ordinary thread, and attempted from a destructor that runs while the thread is unwinding from an earlier panic; observed per pair: accepted / signature-mismatch panic / null-pointer panic / other, and that the target's bytes are untouched by a refusal; the model's gate (token equality of the Coq printer) predicts every cell, "
                        "and the printer is compared with rustc's type_name of every family member; pairs differing only in lifetime spelling are run and logged, not judged; distinct = distinct (form, feature of target, feature of fake, outcome)")
     res.cov["trusted_base"] = vlib.TRUSTED_COMMON + ["the renderer of token lists to type_name syntax in extract/driver.ml and the compact type syntax parser", "rustc's type_name rendering is checked on the family on every run, not in general"]
@@ -54,7 +54,7 @@ def run(res, tier, seed, replay):
         elif got == "A" and want != "A": res.violation("a replacement of a structurally different type was ACCEPTED", case, f"observed {got}, identical spelling required")
         elif got != want: res.violation(f"identical types refused, or the refusal is not a signature-mismatch panic: observed {got}, expected {want}", case, got)
     for ctx in CONTEXTS:
-        for form in [f + ctx for f in ("func", "arm", "closure", "fake")]:
+        for form in [f + ctx for f in ("func", "arm", "closure", "fake", "same_address")]:
             for i, t in enumerate(names):
                 row = O["rows"].get(form, {}).get(t)
                 if row is None: res.broke("missing row", f"{form} {t}"); continue
